@@ -311,8 +311,9 @@ class Dimension:
 
         self = super().__new__(cls)
         self._initialized = False
-        cls._known[key] = self
-        return self
+        # dict.setdefault is atomic: when several threads construct the same key for
+        # the first time they all get the instance that was interned first
+        return cls._known.setdefault(key, self)
 
     def __init__(
         self,
@@ -688,8 +689,9 @@ class Prefix:
 
         self = super().__new__(cls)
         self._initialized = False
-        cls._known[key] = self
-        return self
+        # dict.setdefault is atomic: when several threads construct the same key for
+        # the first time they all get the instance that was interned first
+        return cls._known.setdefault(key, self)
 
     def __init__(
         self,
@@ -967,8 +969,9 @@ class Unit:
         self._initialized = False
         if not factors:
             key = cls._build_key(prefix, {self: 1})
-        cls._known[key] = self
-        return self
+        # dict.setdefault is atomic: when several threads construct the same key for
+        # the first time they all get the instance that was interned first
+        return cls._known.setdefault(key, self)
 
     def __init__(
         self,
@@ -1724,8 +1727,9 @@ class Logarithm:
 
         self = super().__new__(cls)
         self._initialized = False
-        cls._known[key] = self
-        return self
+        # dict.setdefault is atomic: when several threads construct the same key for
+        # the first time they all get the instance that was interned first
+        return cls._known.setdefault(key, self)
 
     def __init__(
         self,
@@ -1818,8 +1822,9 @@ class LogarithmicUnit:
 
         self = super().__new__(cls)
         self._initialized = False
-        cls._known[key] = self
-        return self
+        # dict.setdefault is atomic: when several threads construct the same key for
+        # the first time they all get the instance that was interned first
+        return cls._known.setdefault(key, self)
 
     def __init__(
         self,
